@@ -42,7 +42,20 @@ def embed_contexts(run, specs):
         s2 = copy.deepcopy(s)
         old_n = len(s2["members"])
         big = _gen.mk_member(rng, bits, max(2, 2 * m), cap=max(2, 2 * m), T=T, ctx={"label": "embed-big"})
-        small = _gen.mk_member(rng, bits, 1, cap=1, T=T, seed=True, ctx={"label": "embed-small"})
+        small = _gen.mk_member(rng, bits, 1, cap=rng.choice([1, 2, 4]), T=T, seed=True, ctx={"label": "embed-small"})
+        # degenerate but valid fillers: a zero seed, zero components in the blinding vector, the value 0 — nothing in the protocol excludes them
+        variant = rng.choice(["plain", "zero seed", "zero blinding component", "zero blinding vector", "one seed"])
+        if variant == "zero seed":
+            small["seed"] = _gen.hx(0)
+        elif variant == "one seed":
+            small["seed"] = _gen.hx(1)
+        elif variant == "zero blinding component":
+            small["commit"][0]["r"][rng.randrange(T)] = _gen.hx(0)
+        elif variant == "zero blinding vector":
+            small["commit"][0]["r"] = [_gen.hx(0)] * T
+            if int(small["commit"][0]["v"]) == 0 and bits > 0:
+                small["commit"][0]["v"] = "1"
+                small["promises"][0] = None
         mid = _gen.mk_member(rng, bits, m, cap=2 * m, T=T, ctx={"label": "embed-mid"}, pkinds=["zero" if j % 2 else "rand" for j in range(m)])
         fillers = [big, small, mid]
         seen_ids = set()                     # vmember dicts may be shared between verifications (aliasing survives deepcopy)
@@ -67,15 +80,76 @@ def embed_contexts(run, specs):
             v = s2["verifies"][vi]
             t = v["vmembers"][0]
             for cname, before, after in (("after a larger member", [fb], []), ("between a seeded smaller member and a larger one", [fs], [fb]),
-                                         ("first, before members of other sizes", [], [fm_, fs])):
+                                         ("first, before members of other sizes", [], [fm_, fs]),
+                                         ("after a member with spare capacity, before a larger one", [fm_], [fb])):
                 emb.append((len(s2["verifies"]), vi, len(before), cname))
                 s2["verifies"].append({"mode": v["mode"], "vmembers": before + [t] + after, "log": False})
             if bits * m <= 4 and s.get("group") == "fm" and not emb_has_big(emb):
                 emb.append((len(s2["verifies"]), vi, 256, "at position 256 of a batch of 258 (second internal chunk)"))
                 s2["verifies"].append({"mode": v["mode"], "vmembers": [fs] * 256 + [t, fm_], "log": False})
         out.append(s2)
-        table.append((len(s["verifies"]), emb))
+        table.append((len(s["verifies"]), emb, old_n, variant))
     return out, table
+
+
+MODES = ("VerifyOnly", "RecoverAndVerify", "RecoverOnly")
+
+
+def mode_sweep(run, specs):
+    """Mode sweep: a sample of the verifications of every session (and every embedded batch) is run again in the two other modes.  The verdict must be
+    the same in the two verifying modes, and whatever recover-and-verify accepts, recover-only must answer with the same results at the same
+    positions (C10_batch_verdict_independent_of_seed_and_mode, C10_batch_recover_only_same_masks).  Returns (extended specs, tables)."""
+    import random as _random
+    rng = _random.Random(f"modes:{run.seed}:{run.prop}")
+    out, tables = [], []
+    for s in specs:
+        vs = s.get("verifies", [])
+        cand = [vi for vi, v in enumerate(vs) if v.get("mode") in MODES and 1 <= len(v.get("vmembers", [])) <= 40 and not v.get("_no_modes")
+                and all(k in x for x in v["vmembers"] for k in ("proof", "stmt", "ctx"))]
+        if not cand or s.get("group") not in ("fm", "ristretto") or s.get("_no_modes"):
+            out.append(s)
+            tables.append([])
+            continue
+        late = [vi for vi in cand if vs[vi].get("log") is False]          # embedded batches come last and are unlogged
+        pick = sorted(set(rng.sample(cand, min(10, len(cand))) + late[-8:]))
+        s2 = dict(s)
+        s2["verifies"] = list(vs)
+        table = []
+        for vi in pick:
+            v = vs[vi]
+            idx = {v["mode"]: vi}
+            for md in MODES:
+                if md != v["mode"]:
+                    idx[md] = len(s2["verifies"])
+                    s2["verifies"].append({"mode": md, "vmembers": v["vmembers"], "log": False})
+            table.append(idx)
+        out.append(s2)
+        tables.append(table)
+    return out, tables
+
+
+def check_modes(run, s2, o, table):
+    for idx in table:
+        r = {md: o["verifies"][i] for md, i in idx.items()}
+        if any(x["result"].startswith("unavailable") for x in r.values()):
+            continue
+        run.bump("mode sweeps")
+        rp = {"kind": "session", "spec": strip(s2), "verify": idx["RecoverAndVerify"], "same_batch_in_modes": idx}
+        for md, x in r.items():
+            if x["result"].startswith("panic"):
+                run.violation(f"verification panicked in mode {md}: {x['result'][:160]}", dict(rp, verify=idx[md]))
+                return
+        v_ok, rv_ok, ro_ok = (r[md]["result"] == "ok" for md in MODES)
+        if v_ok != rv_ok:
+            run.violation(f"the verdict depends on the verifying mode: VerifyOnly {r['VerifyOnly']['result'][:60]}, RecoverAndVerify {r['RecoverAndVerify']['result'][:60]}", rp)
+        elif rv_ok and not ro_ok:
+            run.violation(f"recover-only returns an error for a batch that recover-and-verify accepts: {r['RecoverOnly']['result'][:80]}", dict(rp, verify=idx["RecoverOnly"]))
+        elif rv_ok and r["RecoverOnly"].get("masks") != r["RecoverAndVerify"].get("masks"):
+            a, b = r["RecoverAndVerify"].get("masks") or [], r["RecoverOnly"].get("masks") or []
+            bad = [i for i in range(max(len(a), len(b))) if (a[i] if i < len(a) else "-") != (b[i] if i < len(b) else "-")]
+            run.violation(f"recover-only and recover-and-verify return different results for the same batch (positions {bad[:4]} of {len(a)})", dict(rp, verify=idx["RecoverOnly"]))
+        elif v_ok and any(m is not None for m in (r["VerifyOnly"].get("masks") or [])):
+            run.violation("verify-only returned a mask", dict(rp, verify=idx["VerifyOnly"]))
 
 
 def emb_has_big(emb):
@@ -83,7 +157,11 @@ def emb_has_big(emb):
 
 
 def check_embeddings(run, s2, o, entry):
-    n0, emb = entry
+    n0, emb, old_n, variant = entry
+    for fi, mo in enumerate(o["members"][old_n:old_n + 3]):
+        if mo.get("prove") != "ok":
+            run.violation(f"the prover refused / failed on a valid witness ({['larger filler', 'seeded filler: ' + variant, 'filler with spare capacity'][fi]}): {str(mo.get('prove'))[:120]}",
+                          {"kind": "session", "spec": strip(s2), "member": old_n + fi})
     for (ei, vi, pos, cname) in emb:
         src, e = o["verifies"][vi], o["verifies"][ei]
         if src["result"].startswith(("unavailable", "panic")) or e["result"].startswith("unavailable"):
@@ -107,17 +185,17 @@ def run_sessions(run, specs, oracle=None, relevant=0xFF, model_verify=True, jobs
     orig_specs = specs
     if embed:
         specs, emb_table = embed_contexts(run, specs)
+        specs, mode_table = mode_sweep(run, specs)
     obs = run_harness(["session"], [strip(s) for s in specs], jobs=jobs)
     if embed:
         full_obs = obs
         obs = []
-        for s0, s2, o, entry in zip(orig_specs, specs, full_obs, emb_table):
-            if entry is None:
-                obs.append(o)
-                continue
-            check_embeddings(run, s2, o, entry)
+        for s0, s2, o, entry, mt in zip(orig_specs, specs, full_obs, emb_table, mode_table):
+            check_modes(run, s2, o, mt)
+            if entry is not None:
+                check_embeddings(run, s2, o, entry)
             o2 = dict(o)
-            o2["verifies"] = o["verifies"][:entry[0]]
+            o2["verifies"] = o["verifies"][:len(s0.get("verifies", []))]
             o2["members"] = o["members"][:len(s0["members"])]
             obs.append(o2)
         specs = orig_specs
@@ -201,7 +279,7 @@ def replay_session(rp):
         print("recorded:", r["job"])
         print("verifier on this statement with an unrelated proof:", rec["verifies"][0]["result"])
         return 0
-    rec = run_harness(["session"], [r["spec"]])[0]
+    rec = run_harness(["session"], [r["spec"]], profile=r.get("profile", "release"))[0]
     for i, m in enumerate(rec["members"]):
         print(f"member {i}: statement={m.get('statement')} witness={m.get('witness')} prove={m.get('prove')}")
     for i, d in enumerate(rec.get("derived", [])):
